@@ -28,6 +28,7 @@ type Obligation struct {
 	IsSat  bool // reach obligations: must be satisfiable
 	Res    SolveResult
 	Inputs []cexInput
+	Raw    []string // complete query (lemmas, tables)
 }
 
 type cexInput struct {
@@ -43,19 +44,19 @@ type deferredCall struct {
 }
 
 type Frame struct {
-	id     int
-	fn     *ssa.Function
-	regs   map[ssa.Value]Val
-	parent *Frame
-	depth  int
-	defers []deferredCall
-	entry  *State
-	params []Val
+	id      int
+	fn      *ssa.Function
+	regs    map[ssa.Value]Val
+	parent  *Frame
+	depth   int
+	defers  []deferredCall
+	entry   *State
+	params  []Val
 	logical map[string]Val
-	ctr    *Contract
-	bind   []Val // closure bindings (free variables)
-	top    bool
-	site   string
+	ctr     *Contract
+	bind    []Val // closure bindings (free variables)
+	top     bool
+	site    string
 	// ghost
 	entryAlloc string
 }
@@ -124,6 +125,7 @@ type Exec struct {
 	atomicCells     map[string]bool
 	freshRefs       map[string]bool
 	allocLimitTerm  string
+	flagRegs        map[string][]*LValue
 	sortPost        func(ex *Exec, st *State, reach string, v Val, nw string)
 }
 
@@ -137,7 +139,7 @@ func newExec(eng *Engine, unit string) *Exec {
 		depthLimit: 8, hiddenCells: map[cellKey]types.Type{},
 		views: map[string]*viewInfo{}, boxed: map[string]Val{}, mapIterModified: map[cellKey]bool{},
 		loopCtxs: map[loopKey]*loopCtx{}, lockComps: map[string]bool{}, sentinelInit: map[string]bool{},
-		trimBounds: map[string][2]string{}, atomicCells: map[string]bool{}, freshRefs: map[string]bool{},
+		flagRegs: map[string][]*LValue{}, trimBounds: map[string][2]string{}, atomicCells: map[string]bool{}, freshRefs: map[string]bool{},
 	}
 	return ex
 }
@@ -209,6 +211,10 @@ func (ex *Exec) cloneForTrial() *Exec {
 	n.blockReach = map[blockKey]string{}
 	for k, v := range ex.blockReach {
 		n.blockReach[k] = v
+	}
+	n.freshRefs = map[string]bool{}
+	for k, v := range ex.freshRefs {
+		n.freshRefs[k] = v
 	}
 	n.assumedUsed = ex.assumedUsed
 	n.record = false
@@ -453,6 +459,13 @@ func (ex *Exec) execFunc(fr *Frame, st *State, reach string) funcResult {
 		ex.execBlock(fr, b, breach, bst, in, &rets, li)
 	}
 	// merge returns
+	if fr.top {
+		var cs []string
+		for _, r := range rets {
+			cs = append(cs, r.cond)
+		}
+		ex.obligeSat(fr, "reach", "some function exit is reachable under the assumed preconditions (vacuity guard)", mkOr(cs...))
+	}
 	if len(rets) == 0 {
 		return funcResult{reach: "false", st: st}
 	}
@@ -737,7 +750,12 @@ func (ex *Exec) execUnOp(fr *Frame, st *State, reach string, x *ssa.UnOp) Val {
 	switch x.Op {
 	case token.MUL:
 		lv := ex.derefLV(fr, st, reach, v, x.Pos())
-		return ex.load(st, lv)
+		r := ex.load(st, lv)
+		if g, ok := x.X.(*ssa.Global); ok && ex.eng.nonNilGlobal(g) && len(r.L) >= 1 {
+			ex.sc.assert(mkNot(mkEq(r.L[0], "0")))
+			ex.assumedUsed["package-level variable "+g.Pkg.Pkg.Name()+"."+g.Name()+" is initialised once to a non-nil value"] = true
+		}
+		return r
 	case token.NOT:
 		return scalar(x.Type(), mkNot(v.term()))
 	case token.SUB:
